@@ -34,6 +34,8 @@
      C06_vm_objects_stable, C06_vm_objects_stable_run, C06_vm_heap_mono_meaning
                                 across every instruction and every run: a closure object keeps its label and arity
                                 (its upvalue list only grows), a closed upvalue stays closed, an open one never moves.
+     C06_vm_closures_closed     every upvalue address stored in a closure object is an upvalue object (all
+                                instructions, natives, re-entry, runs from the fresh state).
      C06_vm_read_write_open     ReadUpvalue / SetUpvalue through an open upvalue read / write the stack slot
                                 itself, the cell that ReadLocalVar / SetLocalVar of the enclosing function use.
      C06_vm_close_keeps_value,  CloseUpvalue k / Return: exactly the open upvalues with slot >= offset + k
@@ -651,6 +653,27 @@ Theorem C06_vm_objects_stable_run :
     vm_ok s' /\ heap_mono (Vm.st_heap s) (Vm.st_heap s').
 Proof. exact run_stable. Qed.
 Print Assumptions C06_vm_objects_stable_run.
+
+(* heap closedness: every upvalue address stored in a closure object is an upvalue object
+   ([closed_ok x] = vm_ok x /\ clo_ok (heap of x)) - for every instruction, every native, re-entry, and whole runs
+   from the fresh state; so ReadUpvalue / SetUpvalue with an index inside the closure's list never meet a dangling
+   or wrongly typed address (the [upvalue_of] hypothesis of the access theorems above reduces to: the running
+   frame has a closure object and the index is in range) *)
+Theorem C06_vm_closures_closed :
+  closed_ok fresh_state /\
+  (forall (F : fops) (bld : build) (P : program) (reenter : N -> Vm.state -> rres),
+     (forall ip s, closed_ok s -> rres_inv closed_ok (reenter ip s)) ->
+     forall ip s, closed_ok s -> sres_inv closed_ok (step F bld P reenter ip s)) /\
+  (forall F bld budget P s o s',
+     closed_ok s -> run F bld budget P s = (o, s') -> (forall a, o <> OAbort a) -> closed_ok s') /\
+  (forall s, closed_ok s ->
+     forall ca lbl ar ups idx ua, hget (Vm.st_heap s) ca = Some (OClo lbl ar ups) -> nth_error ups idx = Some ua ->
+       exists u, hget (Vm.st_heap s) ua = Some (OUp u)).
+Proof.
+  split; [exact fresh_state_closed|]. split; [exact step_closed|]. split; [exact run_closed|].
+  intros s (_ & Hc) ca lbl ar ups idx ua Hca Hn. eapply Hc; [exact Hca|eapply nth_error_In; exact Hn].
+Qed.
+Print Assumptions C06_vm_closures_closed.
 
 (* ------------------------------------------------------------------------------------------ *)
 (* examples: the crate's compile output for the witnesses of findings/C06, run on the VM model *)
